@@ -50,12 +50,15 @@ Proof.
 Qed.
 Print Assumptions C15_deadlines_within_grace.
 
-(* the step order the shutdown models assume is the program order of shutdown(): stop, sleep, [dump,] close *)
+(* the step order the shutdown models assume is the program order of shutdown(): stop, sleep, [dump,] close; the pipelines that
+   have a template cache (IPFIX, NetFlow v9) DO dump it, by a direct, synchronous call of Dump in shutdown() itself (a dump
+   handed to a helper, a goroutine or a timeout is not this step) *)
 Theorem C15_shutdown_program_order : forall p o, In (p, o) Gen.Timing.shutdown_order ->
-  o = ["stop"; "sleep"; "dump"; "close"]%string \/ o = ["stop"; "sleep"; "close"]%string.
+  (if (String.eqb p "ipfix" || String.eqb p "nf9")%bool then o = ["stop"; "sleep"; "dump"; "close"]%string
+   else o = ["stop"; "sleep"; "close"]%string).
 Proof.
   intros p o Hin. unfold Gen.Timing.shutdown_order in Hin. cbn [In] in Hin.
-  repeat (destruct Hin as [Hin|Hin]; [injection Hin as _ <-; auto|]). contradiction.
+  repeat (destruct Hin as [Hin|Hin]; [injection Hin as <- <-; vm_compute; reflexivity|]). contradiction.
 Qed.
 Print Assumptions C15_shutdown_program_order.
 
